@@ -41,4 +41,4 @@ STRATEGIES = {'histories': _histories}
 
 def parts(tier, seed):
     q = tier == 'quick'
-    return [('hyp', 'histories', 1200 if q else 12000, 10)]
+    return [('hyp', 'histories', 2000 if q else 16000, 10)]
